@@ -83,11 +83,17 @@ ReadSeqs == { <<96>>, <<1, 95>>, <<15, 1, 16, 17, 31, 16>>, <<16, 16, 16, 16, 16
 XofScripts == {[t |-> "xof", dst_parts |-> ds, binder_parts |-> bs, reads |-> r] : ds \in Splits(Bytes4), bs \in Splits(<<9, 8, 7, 6>>), r \in ReadSeqs}
               \cup {[t |-> "xof", dst_parts |-> <<ds>>, binder_parts |-> <<bs>>, reads |-> r] :
                        ds \in {<<>>, <<1>>, <<1, 2, 3, 4, 5>>}, bs \in {<<>>, <<7>>, [i \in 1..40 |-> i]}, r \in ReadSeqs}
+\* separation scripts: tags / binders of several parts that differ in exactly one (possibly late, possibly empty) part
+XofSepScripts == {[t |-> "xof", dst_parts |-> ds, binder_parts |-> bs, reads |-> r] :
+                     ds \in {<< <<1, 2>>, <<3, 4>> >>, << <<1, 2>>, <<3, 5>> >>, << <<1, 2>>, <<>> >>, << <<1, 2>>, <<3, 4>>, <<9>> >>, << <<1, 3>>, <<3, 4>> >>, << <<1, 2>>, <<3>> >>},
+                     bs \in {<< <<9, 8>>, <<7, 6>> >>, << <<9, 8>>, <<7, 7>> >>, << <<9, 8>> >>, << <<9, 8>>, <<7, 6>>, <<0>> >>, << <<8, 8>>, <<7, 6>> >>},
+                     r \in {<<32>>, <<5, 27>>}}
 
 VARIABLE st
 InitPrng == st \in {Script(o) : o \in Single \cup Switches \cup Triples}
 InitPrngQuick == st \in {Script(o) : o \in {x \in Single : x[1].field \in {"Field64", "Field255", "FieldV17", "FieldV40961"}} \cup Switches \cup Triples}
 InitXof == st \in XofScripts
+InitXofSep == st \in XofSepScripts
 Next == UNCHANGED st
 \* the expected elements are exactly what the abstract sampler yields on the crafted stream
 RECURSIVE Sampler(_, _, _)
